@@ -112,6 +112,17 @@ class Repo(object):
             return found[0][1]
         raise AnalysisError('anchor function vanished: %s:%s' % (rel, name))
 
+    def optional_helper(self, rel, name):
+        """module_func, or None when the helper is gone *and* nothing in supp refers to it any more (inlined or made
+        unnecessary by its only callers); a dangling reference is still an analysis error."""
+        try:
+            return self.module_func(rel, name)
+        except AnalysisError:
+            for r, t in self.trees.items():
+                if r.startswith('supp/') and any(isinstance(n, ast.Name) and n.id == name for n in ast.walk(t)):
+                    raise
+            return None
+
     def klass(self, rel, name):
         for n in ast.walk(self.tree(rel)):
             if isinstance(n, ast.ClassDef) and n.name == name:
